@@ -8,6 +8,7 @@ import (
 	"encoding/json"
 	"fmt"
 	"reflect"
+	"time"
 
 	"github.com/hashicorp/consul/acl"
 	"github.com/hashicorp/consul/agent/consul/state"
@@ -157,6 +158,17 @@ func verifPanel() []verifQuery {
 	add("ACLTokenList", "", func(s *state.Store) (uint64, interface{}, error) {
 		return verifWrap3(s.ACLTokenList(nil, true, true, "", "", "", nil, nil))
 	})
+	for _, local := range []bool{false, true} {
+		local := local
+		add("ACLTokenListExpired", fmt.Sprint("local=", local), func(s *state.Store) (uint64, interface{}, error) {
+			toks, _, err := s.ACLTokenListExpired(local, verifFarFuture, 1000)
+			return 0, toks, err
+		})
+		add("ACLTokenMinExpirationTime", fmt.Sprint("local=", local), func(s *state.Store) (uint64, interface{}, error) {
+			tm, err := s.ACLTokenMinExpirationTime(local)
+			return 0, tm, err
+		})
+	}
 	add("ACLPolicyList", "", func(s *state.Store) (uint64, interface{}, error) { return verifWrap3(s.ACLPolicyList(nil, nil)) })
 	add("ACLRoleList", "", func(s *state.Store) (uint64, interface{}, error) { return verifWrap3(s.ACLRoleList(nil, "", nil)) })
 	add("ACLBindingRuleList", "", func(s *state.Store) (uint64, interface{}, error) { return verifWrap3(s.ACLBindingRuleList(nil, "", nil)) })
@@ -184,6 +196,8 @@ func verifPanel() []verifQuery {
 }
 
 func verifWrap3[T any](idx uint64, v T, err error) (uint64, interface{}, error) { return idx, v, err }
+
+var verifFarFuture = time.Date(2200, 1, 1, 0, 0, 0, 0, time.UTC)
 
 var verifPanelQueries = verifPanel()
 
